@@ -598,20 +598,7 @@ FormatterToHTML::cdata(
             const XMLCh* const  ch,
             const size_type     length)
 {
-    if(m_isScriptOrStyleElem == true)
-    {
-        writeParentTagEnd();
-
-        m_ispreserve = true;
-
-        if (shouldIndent() == true)
-        {
-            indent(m_currentIndent);
-        }
-
-        writeNormalizedChars(ch, 0, length, true);
-    }
-    else if(m_stripCData == true)
+    if(m_stripCData == true)
     {
         writeParentTagEnd();
 
@@ -626,7 +613,18 @@ FormatterToHTML::cdata(
     }
     else
     {
-        FormatterToXML::cdata(ch, length);
+        // The HTML output method has no CDATA sections.  The characters of a
+        // CDATA section node are text: escaped like any other text, and written
+        // as they are only inside a script or style element -- which characters()
+        // decides from the element the text is in, not from a flag that stays set
+        // after the first script or style element.
+        const bool  fSavedInCData = m_inCData;
+
+        m_inCData = false;
+
+        characters(ch, length);
+
+        m_inCData = fSavedInCData;
     }
 }
 
